@@ -24,21 +24,38 @@ import (
 )
 
 type zvC10Op struct {
-	Kind string `json:"op"`   // add | remove
+	Kind string `json:"op"`   // add | remove | eor (End-of-RIB: the synchronous flush of the queue)
 	Pfx  int    `json:"pfx"`  // 0 = P, 1 = Q
 	Path int    `json:"path"` // 1 | 2
 }
 
-func (o zvC10Op) String() string { return fmt.Sprintf("%s(p%d@%s)", o.Kind, o.Path, [...]string{"P", "Q"}[o.Pfx]) }
+func (o zvC10Op) String() string {
+	if o.Kind == "eor" {
+		return "end-of-rib"
+	}
+	return fmt.Sprintf("%s(p%d@%s)", o.Kind, o.Path, [...]string{"P", "Q"}[o.Pfx])
+}
 
 type zvC10Case struct {
 	AddPath  bool      `json:"addpath_tx"`
 	Hist     []zvC10Op `json:"history"`
 	Schedule []int     `json:"schedule"`
 	Bound    int       `json:"preemption_bound"`
+	V6       bool      `json:"ipv6_multiprotocol,omitempty"` // IPv6 unicast: MP_REACH_NLRI / MP_UNREACH_NLRI encoding
 }
 
 var zvC10Pfx = []*bnet.Prefix{zvPfx4(192, 0, 2, 0, 24), zvPfx4(198, 51, 100, 0, 24)}
+var zvC10Pfx6 = []*bnet.Prefix{
+	bnet.NewPfx(bnet.IPv6FromBlocks(0x2001, 0xdb8, 1, 0, 0, 0, 0, 0), 48).Ptr(),
+	bnet.NewPfx(bnet.IPv6FromBlocks(0x2001, 0xdb8, 2, 0, 0, 0, 0, 0), 48).Ptr(),
+}
+
+func zvC10Path6(n int) *route.Path {
+	p := zvC10Path(n)
+	p.BGPPath.BGPPathA.NextHop = bnet.IPv6FromBlocks(0x2001, 0xdb8, 0xffff, 0, 0, 0, 0, uint16(20+n)).Ptr()
+	p.BGPPath.BGPPathA.Source = bnet.IPv6FromBlocks(0x2001, 0xdb8, 0xffff, 0, 0, 0, 0, uint16(20+n)).Ptr()
+	return p
+}
 
 func zvC10Path(n int) *route.Path {
 	// learned via eBGP from another peer; exported unchanged to an iBGP neighbour
@@ -51,9 +68,11 @@ type zvC10World struct {
 	us   *UpdateSender
 }
 
-func zvC10Build(addPath bool) *zvC10World {
+func zvC10Build(addPath bool) *zvC10World { return zvC10BuildFam(addPath, false) }
+
+func zvC10BuildFam(addPath, v6 bool) *zvC10World {
 	w := zvNewWorld()
-	o := zvPeerOpts{Addr: 9, Passive: true, IBGP: true}
+	o := zvPeerOpts{Addr: 9, Passive: true, IBGP: true, IPv6: v6}
 	if addPath {
 		o.AddPathTX = 4
 	}
@@ -64,6 +83,10 @@ func zvC10Build(addPath bool) *zvC10World {
 	fsm.con = conn
 	fsm.supports4OctetASN = true
 	f := fsm.ipv4Unicast
+	if v6 {
+		f = fsm.ipv6Unicast
+		f.multiProtocol = true
+	}
 	if addPath {
 		f.addPathTX = routingtable.ClientOptions{MaxPaths: 4}
 	}
@@ -76,7 +99,7 @@ func zvC10Build(addPath bool) *zvC10World {
 }
 
 func zvC10Histories(thorough, addPath bool) [][]zvC10Op {
-	alpha := []zvC10Op{{"add", 0, 1}, {"remove", 0, 1}, {"add", 0, 2}, {"remove", 0, 2}, {"add", 1, 1}}
+	alpha := []zvC10Op{{"add", 0, 1}, {"remove", 0, 1}, {"add", 0, 2}, {"remove", 0, 2}, {"add", 1, 1}, {"eor", 0, 0}}
 	var out [][]zvC10Op
 	var rec func(h []zvC10Op, n int)
 	max := 3
@@ -91,6 +114,16 @@ func zvC10Histories(thorough, addPath bool) [][]zvC10Op {
 			return
 		}
 		for _, o := range alpha {
+			if o.Kind == "eor" {
+				// the End-of-RIB flush: once per history, after at least one route change
+				seen := len(h) == 0
+				for _, x := range h {
+					seen = seen || x.Kind == "eor"
+				}
+				if seen {
+					continue
+				}
+			}
 			// a removal is only issued for a path that was added earlier in the history (the Loc-RIB never withdraws what it did not announce)
 			if o.Kind == "remove" {
 				present := false
@@ -135,17 +168,27 @@ func zvC10Histories(thorough, addPath bool) [][]zvC10Op {
 }
 
 func zvC10Explore(r *vh.Run, addPath bool, hist []zvC10Op, bound int, only []int) {
+	zvC10ExploreFam(r, addPath, false, hist, bound, only)
+}
+
+func zvC10ExploreFam(r *vh.Run, addPath, v6 bool, hist []zvC10Op, bound int, only []int) {
 	var w *zvC10World
 	var dump []string
+	pfxs, mkPath, afi := zvC10Pfx, zvC10Path, 1
+	if v6 {
+		pfxs, mkPath, afi = zvC10Pfx6, zvC10Path6, 2
+	}
 	body := func() {
-		w = zvC10Build(addPath)
+		w = zvC10BuildFam(addPath, v6)
 		t1 := vsched.GoNamed("route-changes", func() {
 			for _, o := range hist {
 				switch o.Kind {
 				case "add":
-					w.aro.AddPath(zvC10Pfx[o.Pfx], zvC10Path(o.Path))
+					w.aro.AddPath(pfxs[o.Pfx], mkPath(o.Path))
 				case "remove":
-					w.aro.RemovePath(zvC10Pfx[o.Pfx], zvC10Path(o.Path))
+					w.aro.RemovePath(pfxs[o.Pfx], mkPath(o.Path))
+				case "eor":
+					w.aro.EndOfRIB()
 				}
 			}
 		})
@@ -160,14 +203,18 @@ func zvC10Explore(r *vh.Run, addPath bool, hist []zvC10Op, bound int, only []int
 				if addPath {
 					id = p.BGPPath.PathIdentifier
 				}
-				dump = append(dump, fmt.Sprintf("1:%s#%d", rt.Prefix().String(), id))
+				ps := rt.Prefix().String()
+				if v6 {
+					ps = fmt.Sprintf("%x/%d", rt.Prefix().Addr().Bytes(), rt.Prefix().Len())
+				}
+				dump = append(dump, fmt.Sprintf("%d:%s#%d", afi, ps, id))
 			}
 		}
 		sort.Strings(dump)
 	}
 	check := func(x *vsched.Execution) {
 		r.Eval(1)
-		c := zvC10Case{addPath, hist, x.Choices, bound}
+		c := zvC10Case{addPath, hist, x.Choices, bound, v6}
 		hs := fmt.Sprint(hist)
 		if x.Status != vsched.Completed {
 			r.Violation(vh.Sig("clause", "run-"+x.Status.String(), "addpath", fmt.Sprint(addPath)), c, "history %s: execution %s %s %.300s", hs, x.Status, x.Blocked, x.Crash)
@@ -249,25 +296,29 @@ func TestVerifC10(t *testing.T) {
 	if r.Thorough() {
 		bound = 3
 	}
-	r.Rule(fmt.Sprintf("every history of 2-3 (thorough: 4) Adj-RIB-Out operations over {add/remove p1,p2 @P, add p1 @Q} x add-path TX {off,on}; for each, every interleaving with at most %d preemptions of the history thread with the real "+
+	r.Rule(fmt.Sprintf("every history of 2-3 (thorough: 4) Adj-RIB-Out operations over {add/remove p1,p2 @P, add p1 @Q, End-of-RIB flush} x add-path TX {off,on} x {IPv4, IPv6 multiprotocol (quick: without add-path)}; for each, every interleaving with at most %d preemptions of the history thread with the real "+
 		"UpdateSender goroutine and its 5 ms ticker (fired by the environment at any point, 2 ticks horizon); final-state oracle: replayed UPDATEs == Adj-RIB-Out; states = executions", bound))
 	r.Require("executions")
 	r.Extra("preemption_bound", bound)
 	if r.IsReplay() {
 		var c zvC10Case
 		r.ReplayCase(&c)
-		zvC10Explore(r, c.AddPath, c.Hist, c.Bound, append([]int{}, c.Schedule...))
+		zvC10ExploreFam(r, c.AddPath, c.V6, c.Hist, c.Bound, append([]int{}, c.Schedule...))
 		r.Count("executions", 1)
 		return
 	}
 	idx := 0
-	for _, ap := range []bool{false, true} {
+	for _, fam := range [][2]bool{{false, false}, {true, false}, {false, true}, {true, true}} {
+		ap, v6 := fam[0], fam[1]
+		if v6 && ap && !r.Thorough() {
+			continue
+		}
 		for _, h := range zvC10Histories(r.Thorough(), ap) {
 			idx++
 			if !r.Mine(idx) {
 				continue
 			}
-			zvC10Explore(r, ap, h, bound, nil)
+			zvC10ExploreFam(r, ap, v6, h, bound, nil)
 			r.Nontrivial(1)
 			if idx < 20 {
 				r.Sample(map[string]any{"addpath": ap, "history": fmt.Sprint(h)})
